@@ -99,6 +99,10 @@ static inline bool errorObjectCoherent(DeserializationError e) {
   std::ostringstream os1, os2; os1 << e; os2 << e.code();
   if (os1.str() != name || os2.str() != name) return false;
   if (bool(e) != (e.code() != DeserializationError::Ok)) return false;
+#if ARDUINOJSON_ENABLE_PROGMEM
+  { const char* fs = reinterpret_cast<const char*>(convertFlashToPtr(e.f_str()));      // the flash copy of the message (test mock: shifted address)
+    if (strcmp(fs, name) != 0) return false; }
+#endif
   static const DeserializationError::Code all[] = {DeserializationError::Ok, DeserializationError::EmptyInput, DeserializationError::IncompleteInput,
                                                    DeserializationError::InvalidInput, DeserializationError::NoMemory, DeserializationError::TooDeep};
   for (DeserializationError::Code c : all) {
